@@ -672,6 +672,64 @@ def replay_site(src, env_auto):
             print("newstyle=%s count=%d -> %r" % (new, c, out))
 
 
+# --------------------------------------------------------------------------- spellings of the babel options
+# babel passes option values as strings from a mapping file; babel_extract's boolean options are read case
+# insensitively ({1, on, yes, true}); str(True) == "True" is the usual spelling.
+TRUE_SPELLINGS = ("1", "on", "yes", "true", "True", "TRUE", "On", "ON", "Yes", "YES")
+FALSE_SPELLINGS = ("0", "off", "no", "false", "False", "FALSE", "Off", "No", "")
+OPTION_KEYS = ("trimmed", "newstyle_gettext", "trim_blocks", "lstrip_blocks")
+OPTION_SOURCES = (
+    "{% trans %}\n  a\n  b\n{% endtrans %}",
+    "{% trans %}a  \n\tb{% endtrans %}",
+    "{% trans %}50%{% endtrans %}",
+    "{% trans %}%s %(x)s %%{% endtrans %}",
+    "{% trans %}\n  50% {{ x }}\n  {% endtrans %}",
+    "{% trans n=count %}\n  one %\n  {% pluralize %}\n  {{ n }} %\n  {% endtrans %}",
+    "{% trans \"ctx\" %}\n  50%\n  {% endtrans %}",
+    "{% trans \"ctx\" n=count %}\n  a{% pluralize %}b%\n  {% endtrans %}",
+    "{% trans notrimmed %}\n  a\n{% endtrans %}",
+)
+
+
+def shard_options(key):
+    """babel_extract with every spelling of one boolean option == the strings gettext receives when rendering with
+    the corresponding Environment setting."""
+    import jinja2.ext as ext
+
+    p = core.Part()
+    for src in OPTION_SOURCES:
+        for value, spellings in ((True, TRUE_SPELLINGS), (False, FALSE_SPELLINGS)):
+            # the corresponding rendering environment
+            cfg = (value if key == "newstyle_gettext" else False, False, value if key == "trimmed" else False)
+            ws = (value if key == "trim_blocks" else False, value if key == "lstrip_blocks" else False)
+            rec: list = []
+            env = make_env(cfg, rec, ws)
+            t = env.from_string(src)
+            for c in COUNTS:
+                t.render(render_ctx(c))
+            passed = {(f, norm_msg(f, a)) for f, a in rec}
+            for sp in spellings:
+                p.evals += 1
+                try:
+                    got = {(f, norm_msg(f, (m,) if (isinstance(m, str) or m is None) else m))
+                           for _, f, m, _ in ext.babel_extract(io.BytesIO(src.encode("utf-8")), ext.GETTEXT_FUNCTIONS,
+                                                               [], {key: sp, "silent": "false"})}
+                except Exception as e:  # noqa: BLE001
+                    got = {("error", (type(e).__name__,))}
+                p.sig((key, value, src, sorted(got, key=repr) == sorted(passed, key=repr), len(passed)))
+                if got != passed:
+                    p.violation("C33/babel-option-spelling/%s/%s" % (key, "true" if value else "false"), {
+                        "msg": "babel_extract(options={%r: %r}) on %r gave %r; rendering with %s=%s passes %r to gettext"
+                               % (key, sp, src, sorted(got, key=repr), key, value, sorted(passed, key=repr)),
+                        "source": src, "option": key, "spelling": sp,
+                        "script": "import io, jinja2.ext as ext\nprint(list(ext.babel_extract(io.BytesIO(%r.encode()), "
+                                  "ext.GETTEXT_FUNCTIONS, [], {%r: %r})))\n" % (src, key, sp),
+                    })
+            p.sample({"source": src, "option": key, "value": value, "messages_passed_to_gettext":
+                      sorted(passed, key=repr)}, cap=1)
+    return p
+
+
 def shard_ws(arg):
     """whitespace family: trim_blocks x lstrip_blocks in the rendering environment and in the babel options."""
     ctx, hkey, plural, mid_len, ws = arg
@@ -744,6 +802,9 @@ def run(ctx: core.Ctx):
         "definition-site/call-site family: old-style and new-style output must be identical for every structure and "
         "direction; the absolute R-i18n expectation (values escaped, block text not) is asserted for macro / call-body "
         "structures written with autoescape off and invoked inside {% autoescape true %} (runtime setting at the call)",
+        "CALIBRATED: babel_extract's boolean options are read case-insensitively with true = {1, on, yes, true} "
+        "(the tree's getbool; babel passes mapping-file strings such as 'True'); for every spelling the extracted "
+        "message set must equal the set of strings gettext receives from the equally configured environment",
         "extraction is compared as a set of (function, string arguments) ignoring line numbers and comments",
         "whitespace family: trim_blocks/lstrip_blocks are set identically on the rendering Environment and in the "
         "babel_extract options ('true'/'false' strings); the model removes the first newline after a block tag "
@@ -767,6 +828,8 @@ def run(ctx: core.Ctx):
         shards.append((shard_inline, (hk, pl, 3 if ctx.quick else 4)))
     for site in SITES:
         shards.append((shard_sites, (site, 2 if ctx.quick else 3)))
+    for key in OPTION_KEYS:
+        shards.append((shard_options, key))
     for f in CALL_FUNCS:
         shards.append((shard_calls, (f, 3 if ctx.quick else 4)))
     ctx.pmap(_dispatch, shards)
